@@ -312,8 +312,10 @@ def write_evidence(ctx, violations, level_note_extra=None):
         "wall_s": round(time.time() - ctx.t0, 2),
         "violations": violations,
     }
-    os.makedirs(os.path.join(VERIF, "evidence"), exist_ok=True)
-    with open(os.path.join(VERIF, "evidence", f"{ctx.prop}.json"), "w") as f:
+    # runs against another checkout (CSPUZ_REPO=..., used for mutation tests) must not overwrite the evidence of /repo
+    evdir = "evidence" if os.path.realpath(REPO) == "/repo" else os.path.join("replays", "evidence-other-checkout")
+    os.makedirs(os.path.join(VERIF, evdir), exist_ok=True)
+    with open(os.path.join(VERIF, evdir, f"{ctx.prop}.json"), "w") as f:
         json.dump(ev, f, indent=1, default=str)
 
 
